@@ -27,6 +27,8 @@ type Engine struct {
 
 	globalInit   map[*ssa.Global]ssa.Value
 	globalStores map[*ssa.Global]int
+	fieldFn      map[fieldKeyT]*fieldFuncInfo
+	allFns       []*ssa.Function
 }
 
 func NewEngine(inRepo func(string) bool, inlineDepth int) *Engine {
@@ -877,6 +879,12 @@ func (ev *Eval) call(c *ssa.Call) *Term {
 		return ev.builtin(c, b)
 	}
 	callee := com.StaticCallee()
+	if callee == nil {
+		// a function-valued struct field that every constructor fills with the same function
+		if fn := ev.E.FieldFunc(com.Value, c.Parent().Prog); fn != nil {
+			callee = fn
+		}
+	}
 	if callee == nil {
 		return &Term{K: KCall, Name: "dynamic", Args: append([]*Term{ev.op(com.Value, c)}, ev.args(com.Args, c)...), Instr: c, N: ev.E.serialFor(ev, c)}
 	}
